@@ -115,8 +115,6 @@ def inline_new_helpers(prog):
                 thread_jumps(f)
                 single_reaching_bools(f)
     new = {k for k, f in prog.fns.items() if k.startswith("inkayaku_") and k not in known and f.get("kind") != "promoted" and "{closure" not in k and not f.get("test")}
-    if not new:
-        return []
     done = []
     for depth in range(MAX_DEPTH):
         changed = False
@@ -125,7 +123,10 @@ def inline_new_helpers(prog):
                 continue
             for bi, t in _calls(f):
                 ck = t["callee"]["key"]
-                if ck not in new or ck == k:
+                # (a closure the function defines and calls itself - `let ok = || a && b; if ok() {..}` - is spliced
+                # in like a new helper; closures handed to iterator adaptors are not called here and stay)
+                own_closure = "{closure" in ck and ck.startswith(k + "::") and ck in prog.fns and ck not in known
+                if (ck not in new and not own_closure) or ck == k:
                     continue
                 g = prog.fns.get(ck)
                 if g is None or len(g["blocks"]) + len(f["blocks"]) > MAX_BLOCKS:
@@ -140,8 +141,18 @@ def inline_new_helpers(prog):
                 for n, v in (g.get("names") or {}).items():
                     names.setdefault(str(int(n) + lo), v)
                 blk = f["blocks"][bi]
-                for i, a in enumerate(t["args"]):
-                    blk["stmts"].append({"dst": {"l": lo + 1 + i, "p": []}, "rv": {"op": "use", "a": [copy.deepcopy(a)]}, "line": t.get("line", 0), "exp": False})
+                gn = g["args"] if isinstance(g["args"], int) else len(g["args"])
+                if own_closure and len(t["args"]) == 2:
+                    # closure call ABI: (environment, tuple of the arguments); the body takes them spread out
+                    blk["stmts"].append({"dst": {"l": lo + 1, "p": []}, "rv": {"op": "use", "a": [copy.deepcopy(t["args"][0])]}, "line": t.get("line", 0), "exp": False})
+                    tup = t["args"][1]
+                    if tup.get("k") in ("copy", "move"):
+                        for i in range(gn - 1):
+                            src = {"k": "copy", "pl": {"l": tup["pl"]["l"], "p": list(tup["pl"]["p"]) + [{"f": i, "name": str(i), "of": None, "ty": g["locals"][2 + i]["ty"]}]}}
+                            blk["stmts"].append({"dst": {"l": lo + 2 + i, "p": []}, "rv": {"op": "use", "a": [src]}, "line": t.get("line", 0), "exp": False})
+                else:
+                    for i, a in enumerate(t["args"][:gn] if own_closure else t["args"]):
+                        blk["stmts"].append({"dst": {"l": lo + 1 + i, "p": []}, "rv": {"op": "use", "a": [copy.deepcopy(a)]}, "line": t.get("line", 0), "exp": False})
                 dest, target = t.get("dest"), t["target"]
                 blk["term"] = {"k": "goto", "line": t.get("line", 0), "exp": False, "target": bo}
                 for gb in g["blocks"]:
@@ -179,8 +190,8 @@ def inline_new_helpers(prog):
     inlined_callees = {c for _, c in done}
     for ck in sorted(inlined_callees - still):
         f = prog.fns.get(ck)
-        if f is None or f.get("is_pub") and False:
-            continue
+        if f is None or "{closure" in ck:
+            continue        # (a closure stays: its construction site still names it)
         prog.helper_bodies[ck] = prog.fns[ck]
         del prog.fns[ck]
         prog.fn_crate.pop(ck, None)
